@@ -29,6 +29,7 @@ type scheduler struct {
 	cur      *thread
 	abort    any // fatal condition raised in a non-main thread
 	preempts int // pre-emptions used on this path
+	delays   int // delays used on this path (delay-bounded mode)
 	switches int
 }
 
@@ -126,12 +127,46 @@ func (s *scheduler) pickNext(fr *frame, except *thread) *thread {
 	if len(en) == 0 {
 		return nil
 	}
+	if s.i.cfg.Delays > 0 {
+		// delay-bounded scheduling (Emmi, Qadeer, Rakamaric 2011): the default is
+		// round-robin from the thread that just stopped; skipping k threads costs k delays
+		en = s.rrOrder(en, except)
+		maxk := len(en) - 1
+		if r := s.i.cfg.Delays - s.delays; r < maxk {
+			maxk = r
+		}
+		k := 0
+		if maxk > 0 && s.i.path != nil {
+			k = s.i.choice(maxk+1, "delay")
+		}
+		s.delays += k
+		return en[k]
+	}
 	if len(en) > 1 && s.i.cfg.Preempt > 0 && s.i.path != nil {
 		k := s.i.choice(len(en), "sched")
 		return en[k]
 	}
 	// deterministic default: main first after others have had their turn? use lowest id
 	return en[0]
+}
+
+// rrOrder sorts the enabled threads in round-robin order starting after 'from'.
+func (s *scheduler) rrOrder(en []*thread, from *thread) []*thread {
+	base := 0
+	if from != nil {
+		base = from.id
+	}
+	n := len(s.threads)
+	out := make([]*thread, 0, len(en))
+	for d := 1; d <= n; d++ {
+		id := (base + d) % n
+		for _, t := range en {
+			if t.id == id {
+				out = append(out, t)
+			}
+		}
+	}
+	return out
 }
 
 // switchTo hands the baton to t and waits until this thread is resumed.
@@ -193,6 +228,36 @@ type deadlockAbort struct{ desc string }
 // pre-empted here.
 func (s *scheduler) point(fr *frame, what string) {
 	i := s.i
+	if i.cfg.Delays > 0 {
+		if i.path == nil || s.delays >= i.cfg.Delays || len(s.threads) < 2 {
+			return
+		}
+		me := fr.thr
+		if me == nil {
+			me = s.cur
+		}
+		var en []*thread
+		for _, t := range s.threads {
+			if t != me && s.enabled(t) {
+				en = append(en, t)
+			}
+		}
+		if len(en) == 0 {
+			return
+		}
+		en = s.rrOrder(en, me)
+		maxk := len(en)
+		if r := i.cfg.Delays - s.delays; r < maxk {
+			maxk = r
+		}
+		k := i.choice(maxk+1, "delay@"+what)
+		if k == 0 {
+			return
+		}
+		s.delays += k
+		s.switchTo(me, en[k-1])
+		return
+	}
 	if i.cfg.Preempt == 0 || i.path == nil || s.preempts >= i.cfg.Preempt || len(s.threads) < 2 {
 		return
 	}
@@ -605,7 +670,7 @@ func doSelect(fr *frame, instr *ssa.Select) value {
 	}
 	if r := ready(); len(r) > 0 {
 		k := r[0]
-		if len(r) > 1 && i.cfg.Preempt > 0 && i.path != nil {
+		if len(r) > 1 && (i.cfg.Preempt > 0 || i.cfg.Delays > 0) && i.path != nil {
 			k = r[i.choice(len(r), "select")]
 		}
 		return fire(k)
@@ -725,7 +790,9 @@ func mutexUnlock(fr *frame, p *value) {
 	i.sched.release(fr, &m.vc)
 	m.locked = false
 	i.lockHeld(i.sched.thr(fr), p, false)
-	i.sched.point(fr, "Unlock")
+	// no scheduling point after a release: switching here is equivalent (up to
+	// plain accesses, which the race monitor covers) to switching at this
+	// thread's next visible operation
 }
 
 func rwRLock(fr *frame, p *value) {
@@ -748,7 +815,6 @@ func rwRUnlock(fr *frame, p *value) {
 	i.sched.release(fr, &m.rvc)
 	m.readers--
 	i.rlockHeld(i.sched.thr(fr), p, -1)
-	i.sched.point(fr, "RUnlock")
 }
 
 // lock-set tracking for the lock-discipline monitor
